@@ -12,6 +12,7 @@ that carries the operation out:
    19 m h i x     insert      20 m h   pop      21 m h i   remove      22 m h n   reserve      23 m h   clone the vector (the copy belongs to m)
    24 m           TYPED CArc<Token> (not erased)             25 m h        clone it      26 m h   erase it (into_opaque; the result is a context)
    27 m v         typed CBox<u64>                            28 m h        read it
+   29 m v n       typed CSliceBox<u64> of n elements          30 m h        sum it
 After the script everything left is destroyed, alternating the destroying module.
 harness/xmod is ONE source compiled twice: into the host binary (module 0) and as a cdylib (module 1) loaded with dlopen — by another compiler
 version / optimisation level / repr(Rust) layout seed; each artifact has its own std, its own tagging global allocator (a block freed by the module
@@ -143,7 +144,7 @@ def gen_cases(rng, tier):
         for _ in range(4 + r.below(37)):
             m = r.below(2)
             live = lambda k: [j for j, x in enumerate(kinds) if x == k]
-            choice = r.below(24) if r.chance(1, 2) else 17 + r.below(2) if r.chance(1, 6) else r.below(24)
+            choice = r.below(26) if r.chance(1, 2) else 17 + r.below(2) if r.chance(1, 6) else r.below(26)
             pick = lambda k: (r.choice(live(k)) if live(k) and not (wild and r.chance(1, 4)) else r.below(len(kinds) + 2) - 1)
             if choice == 0 or not live("c"):
                 ops.append([0, m]); kinds.append("c"); home[len(kinds) - 1] = m
@@ -218,12 +219,17 @@ def gen_cases(rng, tier):
                     ops.append([27, m, r.below(1000)]); kinds.append("b"); home[len(kinds) - 1] = m
                 else:
                     ops.append([28, m, pick("b")])
+            elif choice == 23:     # typed boxed slices
+                if not live("s") or r.chance(1, 2):
+                    ops.append([29, m, r.below(1000), r.choice([0, 1, 2, 5, 17])]); kinds.append("s"); home[len(kinds) - 1] = m
+                else:
+                    ops.append([30, m, pick("s")])
             else:
-                h = pick(r.choice(["c", "o", "g", "v", "t", "b"])); ops.append([17, m, h])
+                h = pick(r.choice(["c", "o", "g", "v", "t", "b", "s"])); ops.append([17, m, h])
                 if 0 <= h < len(kinds) and kinds[h]:
                     kinds[h] = None
             o = ops[-1]
-            if len(o) > 2 and o[0] not in (0, 13, 2, 6, 24, 27) and 0 <= o[2] < len(kinds) and home.get(o[2], m) != m:
+            if len(o) > 2 and o[0] not in (0, 13, 2, 6, 24, 27, 29) and 0 <= o[2] < len(kinds) and home.get(o[2], m) != m:
                 dist["cross_module_uses"] += 1
         dist["ops"] += len(ops)
         lines.append("5 0 | " + " ; ".join(" ".join(map(str, o)) for o in ops))
